@@ -78,7 +78,27 @@ theorem face_plan_run :
   · decide +kernel
   · decide +kernel
 
+/-- `cps()` of the face-contact pair -/
+def faceCps : Array (List ℚ) :=
+  #[[0, 0, 0], [0, 0, 1], [0, 1, 0], [0, 1, 1], [1, 0, 0], [1, 0, 1], [1, 1, 0], [1, 1, 1],
+    [2, 0, 0], [2, 0, 1], [2, 1, 0], [2, 1, 1]]
+
+set_option maxRecDepth 100000 in
+theorem face_cps : faceCps.size = 12 ∧ cpsTable 3 faceContact faceN 12 = .ok faceCps := by
+  refine ⟨rfl, ?_⟩
+  decide +kernel
+
 theorem face_points_nonjunk : ∀ p ∈ (faceContact.map (·.cps)).flatMap (·.data.toList), p ≠ (default : List ℚ) := by
   decide +kernel
+
+theorem getD_toList (N : Array (NdArr ℤ)) (k j : ℕ) :
+    (N.getD k default).data.getD j 0 = ((N.toList.map (·.data.toList)).getD k []).getD j 0 := by
+  simp only [Array.getD_eq_getD_getElem?, List.getD_eq_getElem?_getD, List.getElem?_map, Array.getElem?_toList]
+  cases N[k]? with
+  | none =>
+    have hd : (default : NdArr ℤ).data = #[] := rfl
+    simp [hd]
+  | some a => simp
+
 
 end Splipy.MP.C18W
